@@ -14,7 +14,9 @@ Probe(s, sc, e) ==
     LET k == s.probes + 1
         s1 == [s EXCEPT !.probes = k, !.baseline = IF @ = -1 THEN e.lib ELSE @]
     IN [ s |-> s1,
-         v |-> V((k \in {sc.reclaim[i] : i \in 1..Len(sc.reclaim)}) => e.lib <= s1.baseline, "C20", "WorkersNotReclaimed") ]
+         \* sc.reclaim = <<probe number, slack>>: at that probe the thread count is back at the baseline,
+         \* plus at most `slack` workers that served a connection within the last idle period
+         v |-> V(\A i \in 1..Len(sc.reclaim) : (sc.reclaim[i][1] = k) => e.lib <= s1.baseline + sc.reclaim[i][2], "C20", "WorkersNotReclaimed") ]
 
 Quiescent(s, sc, e, cs) ==
     IF e.res \notin {"idle", "settled"} THEN [s |-> s, v |-> <<>>]
